@@ -1180,14 +1180,18 @@ CaseX86M_GPB_MulDiv:
       break;
 
     case InstDB::kEncodingX86Call:
+      // 16-bit target 'call r16|m16' (32-bit mode only) requires an operand-size override prefix.
       if (isign3 == ENC_OPS1(Reg)) {
+        opcode.add_66h_if(o0.x86_rm_size() == 2);
         rb_reg = o0.id();
         goto EmitX86R;
       }
 
       rm_rel = &o0;
-      if (isign3 == ENC_OPS1(Mem))
+      if (isign3 == ENC_OPS1(Mem)) {
+        opcode.add_66h_if(o0.x86_rm_size() == 2);
         goto EmitX86M;
+      }
 
       // Call with 32-bit displacement use 0xE8 opcode. Call with 8-bit displacement is not encodable so the
       // alternative opcode field in X86DB must be zero.
